@@ -40,9 +40,11 @@ class CCFGBuilder:
         self.cfg = CFG(func.name)
         self.labels = {}
 
-    def label(self, decl_id, line=0):
+    def label(self, decl_id, line=0, name=None):
         if decl_id not in self.labels:
             self.labels[decl_id] = self.cfg.new("join", None, line)
+        if name is not None:
+            self.labels[decl_id].info = ("label", name)
         return self.labels[decl_id]
 
     def build(self):
@@ -120,7 +122,8 @@ class CCFGBuilder:
             head = g.new("join", None, s.line)
             inc_entry = head
             if inc is not None and inc.kind != "Null":
-                n = g.new("stmt", inc, inc.line or s.line)
+                n = g.new("stmt", inc, inc.line or s.line,
+                          info=("for-inc", s.line))
                 g.edge(n, head)
                 inc_entry = n
             b = self.stmt(body, k.replace(next=inc_entry, brk=k.next,
@@ -181,7 +184,7 @@ class CCFGBuilder:
             g.edge(j, self.label(s.refid, s.line))
             return j
         if kind == "LabelStmt":
-            j = self.label(s.refid, s.line)
+            j = self.label(s.refid, s.line, s.name)
             entry = self.stmt(s.ch[-1], k) if s.ch else k.next
             g.edge(j, entry)
             return j
